@@ -1261,17 +1261,47 @@ func c17GenConc(r *Rand, tier string) Sx {
 
 func c17ClassConc(in, obs Sx) (string, bool) {
 	mode := []string{"dedup", "limit", "queued"}[in.Nth(1).Nth(0).Int()%3]
-	blocked := false
+	n := in.Nth(2).Len()
+	blocked := make([]bool, n)
+	any, resumed, skipped, cancelled := false, false, false, false
 	for _, rd := range obs.Nth(0).List {
-		for _, st := range rd.List {
-			if st.Nth(0).Int() == 2 {
-				blocked = true
+		for i, st := range rd.List {
+			if i >= n {
+				break
+			}
+			switch st.Nth(0).Int() {
+			case 2:
+				blocked[i] = true
+				any = true
+			case 1:
+				if blocked[i] {
+					resumed = true // a waiter became leader / got the permit / got the token
+				}
+				blocked[i] = false
+			case 3:
+				if blocked[i] {
+					if st.Nth(1).Int() == 0 {
+						skipped = true // a waiter was told success without copying itself
+					} else if st.Nth(1).Int() == 1 {
+						cancelled = true
+					}
+				}
+				blocked[i] = false
 			}
 		}
 	}
-	c := fmt.Sprintf("conc-%s/callers%d", mode, in.Nth(2).Len())
-	if blocked {
+	c := fmt.Sprintf("conc-%s/callers%d", mode, n)
+	if any {
 		c += "/contended"
 	}
-	return c, blocked
+	if resumed {
+		c += "+resumed"
+	}
+	if skipped {
+		c += "+skipped"
+	}
+	if cancelled {
+		c += "+cancelled"
+	}
+	return c, any
 }
